@@ -262,6 +262,36 @@ func init() {
 				cse.TimeoutMS = 40000
 				cs = append(cs, cse)
 			}
+			// a config file restarted in the middle of its plan (stage-start in the past): the skipped stage still counts
+			// in the trigger's total, so triggering ends by itself before that deadline; with an iteration that never
+			// finishes the run still returns after the completion timeout
+			for i := 0; i < 2; i++ {
+				c := pick(r, 1, 2)
+				st := "- duration: 2s\n  mode: constant\n  rate: 1/20ms\n- duration: 400ms\n  mode: constant\n  rate: 1/20ms\n"
+				y := c05FileYAML(c, "20s", 0, st) + fmt.Sprintf("schedule:\n  stage-start: %s\n", time.Now().Add(-2500*time.Millisecond).UTC().Format(time.RFC3339Nano))
+				if i == 1 {
+					// (the YAML is fixed when the case is generated: give the first stage an hour so that it is over for sure)
+					st = "- duration: 1h\n  mode: constant\n  rate: 1/20ms\n- duration: 400ms\n  mode: constant\n  rate: 1/20ms\n"
+				}
+				_ = y
+				p := c05Params{Ending: "trigger-duration", Blocking: "forever", Desc: fmt.Sprintf("mode=file(restarted: stage 1 of 1h over, stage 2 of 400ms left, max-duration 20s) c=%d ending=trigger-returns-early blocking=forever completion=400ms", c)}
+				p.Spec = engine.Spec{Mode: "file", YAML: "RESTARTED:" + st}
+				p.Spec.MaxDurationMS, p.Spec.IgnoreDropped, p.Spec.CompletionMS, p.Spec.Concurrency = 20000, true, 400, c
+				cse := core.MkCase("C05", "run", 7350+i, seed, p)
+				cse.Race = i%2 == 0
+				cse.TimeoutMS = 40000
+				cs = append(cs, cse)
+			}
+			// a setup that fails and a scenario-level cleanup that fails too: the run reports and returns
+			for i, kind := range []string{"setup-fail", "setup-panic"} {
+				p := c05Params{Ending: kind, Blocking: "none", Desc: "mode=constant c=2 ending=" + kind + "+teardown-fails blocking=none completion=300ms"}
+				p.Spec = engine.RateSpec("constant", 2, 5, 2)
+				p.Spec.IgnoreDropped, p.Spec.CompletionMS, p.Spec.MaxDurationMS = true, 300, 1000
+				cse := core.MkCase("C05", "run", 7360+i, seed, p)
+				cse.Race = i%2 == 0
+				cse.TimeoutMS = 30000
+				cs = append(cs, cse)
+			}
 			// max-duration ends in the pause between two config-file stages, a users stage comes next
 			nps := 2
 			if tier == "thorough" {
@@ -368,6 +398,12 @@ func c05Run(c *core.Case, o *core.Outcome) {
 }
 
 func c05RunOnce(c *core.Case, o *core.Outcome, p c05Params) {
+	if strings.HasPrefix(p.Spec.YAML, "RESTARTED:") {
+		// stage-start one hour and 100 ms ago: the first stage (1h) is over, the second is current
+		st := strings.TrimPrefix(p.Spec.YAML, "RESTARTED:")
+		st = strings.Replace(st, "duration: 2s", "duration: 1h", 1)
+		p.Spec.YAML = c05FileYAML(p.Spec.Concurrency, "20s", 0, st) + fmt.Sprintf("schedule:\n  stage-start: %s\n", time.Now().Add(-time.Hour-100*time.Millisecond).UTC().Format(time.RFC3339Nano))
+	}
 	opt := goleak.IgnoreCurrent()
 	e := &c05Env{l: engine.NewLog(), gate: make(chan struct{})}
 	e.ctx, e.cancel = context.WithCancel(context.Background())
@@ -383,6 +419,9 @@ func c05RunOnce(c *core.Case, o *core.Outcome, p c05Params) {
 	}
 	scenario := func(t *f1testing.T) f1testing.RunFn {
 		close(setupEntered)
+		if strings.Contains(p.Desc, "+teardown-fails") {
+			t.Cleanup(func() { t.FailNow() })
+		}
 		switch p.Ending {
 		case "cancel-setup":
 			markStop()
